@@ -139,6 +139,20 @@ def free (p : Pool) (ptr : Nat) : Pool :=
   | s :: rest => { p with segs := { s with pos := ptr } :: rest, lastPtr := none }
   | [] => p
 
+/-- `cx_free(pool, ptr)` of usual/cxalloc.c: `if (ptr) c_free(ctx, ptr)`; `none` = NULL -/
+def cxFree (p : Pool) (ptr : Option Nat) : Pool :=
+  match ptr with
+  | none => p
+  | some q => free p q
+
+/-- `pool_free` as it would run if `cx_free` handed it NULL (address 0) unfiltered: the comparison
+    `pool->last_ptr != ptr` is false when `last_ptr` is NULL too, and `seg_pos` becomes NULL -/
+def freeUnfilteredNull (p : Pool) : Pool :=
+  if p.lastPtr ≠ none then p else
+  match p.segs with
+  | s :: rest => { p with segs := { s with pos := 0 } :: rest, lastPtr := none }
+  | [] => p
+
 /-- `pool_guess_old_len(pool, ptr)` -/
 def guessOldLen (align : Nat) : List Seg → Nat → Nat
   | [], _ => 0
